@@ -387,7 +387,8 @@ func (lc *lockCase) settle(expectCas int) bool {
 			default:
 			}
 		}
-		stable := casSeen() >= expectCas
+		casMissing := casSeen() < expectCas
+		stable := true
 		var gs map[int64]goState
 		if stable {
 			for _, w := range lc.workers {
@@ -428,6 +429,16 @@ func (lc *lockCase) settle(expectCas int) bool {
 					stable = false
 				}
 			}
+		}
+		if stable && casMissing {
+			// everything else stands still, only the renewal call(s) of the lease timer(s) just fired are missing
+			if time.Now().After(deadline) {
+				lc.ctx.R.Quiet("mon C05-fired-timer-renews", fmt.Sprintf("%d lease timer(s) fired, but only %d renewal call(s) reached the storage within 3s: a supportTimeout returned without trying to extend the lease (%s)", expectCas, casSeen(), lc.describe()))
+				lc.failed = true
+				return false
+			}
+			time.Sleep(30 * time.Microsecond)
+			continue
 		}
 		if stable {
 			// one more look for returns that raced with the inspection
